@@ -270,8 +270,59 @@ def prehash_nulls(ctx):
     return out
 
 
+def bucket_restore(ctx):
+    """shards send partial aggregate rows; the coordinator restores the PER bucket of each row with scalar_to_u64 before
+    merging - a bucket that is not restored becomes the NULL group"""
+    b = Builder(ctx, "merge-aggregate_stream-{impl#0}-scalar_to_u64.", "AggregateStreamMerger::scalar_to_u64", {})
+    E, q = b.E, ctx.q
+    r = b.mk("B-6", "AggregateStreamMerger::scalar_to_u64 (restores the PER bucket of a shard's partial row at the coordinator): every "
+                    "non-negative Int64 / Timestamp - including 0, the first bucket since the epoch - is returned as Some(that value); "
+                    "None only for negative numbers")
+    out = [b.results["B-6"]]
+    if not r:
+        return out
+    if not E.returns:
+        r.status = "inconclusive"
+        r.notes.append("no return")
+        return out
+    r.nontrivial = True
+    vd = z3.BitVec("disc(arg:value)", 64)
+    for variant in ("Int64", "Timestamp"):
+        vi = E.structs.variant_index(f"ScalarValue::{variant}")
+        x = E.sym(f"arg:value:{variant}.0", "i64")
+        if vi is None or x is None:
+            r.status = "inconclusive"
+            r.notes.append(f"ScalarValue::{variant} not resolved")
+            return out
+        seen = False
+        for (_n, reach, env) in E.returns:
+            d = E.disc_term(env.get(0))
+            if d is None:
+                r.status = "inconclusive"
+                r.notes.append("return discriminant not resolved")
+                return out
+            res, model = q.check(reach, vd == vi, x >= 0, d == 0, domain=E.domain)
+            r.queries += 1
+            if res == z3.sat:
+                val = model.eval(x, model_completion=True).as_signed_long()
+                r.status = "violated"
+                r.witness = {"what": f"scalar_to_u64({variant}({val})) is None: the partial rows of that PER bucket are merged into the NULL-bucket group "
+                                     "at the coordinator",
+                             "span": None, "call": "scalar_to_u64", "path": E.path_of_model(model)[-6:], "model": {"value": str(val)}}
+                return out
+            res2, _ = q.check(reach, vd == vi, x >= 0, d == 1, domain=E.domain)
+            r.queries += 1
+            seen = seen or res2 == z3.sat
+        if not seen:
+            r.status = "inconclusive"
+            r.notes.append(f"no Some(..) return reachable for {variant}")
+            return out
+    return out
+
+
 def obligations(ctx):
     out = []
+    out += bucket_restore(ctx)
     out += prehash_nulls(ctx)
     native_done = None
     for oid, ty in (("B-1s", "Sum"), ("B-1a", "Avg"), ("B-1n", "Min"), ("B-1x", "Max")):
